@@ -96,3 +96,37 @@ def r_return_degrees(idx, rep, dg, rule="R-RETDEGREE"):
             rep.unknown(rule, key, f.where, "no position inferred")
         else:
             rep.ok(rule, key, f.where, "degrees %s" % (res,))
+
+
+TOL_EXCEPTIONS = {
+    "distance3d.distance._disk::disk_to_disk|epsilon": "one epsilon serves as angle, squared-moment and length tolerance in the iterative disk/disk routine (as written upstream)",
+    "distance3d.distance._ellipsoid::point_to_ellipsoid|epsilon": "epsilon bounds a normalised (dimensionless) norm and the bisection variable of Eberly's ellipsoid routine",
+    "distance3d.distance._line::_line_to_line_segment|epsilon": "Ericson's code compares one EPSILON with the squared segment length and with the squared norm of the unit line direction",
+}
+
+
+def r_tolunit(idx, rep, modules, rule="R-TOLUNIT", floor=10, face_arrays=None):
+    """a tolerance symbol (epsilon / tolerance / bias; per function, per class for self.<tol>) is compared with quantities of ONE length degree:
+    a length tolerance applied to a squared length, an area or a volume makes the test scale dependent (small shapes look degenerate)."""
+    rep.rule(rule, "each tolerance symbol is compared with quantities of a single length degree within its function / class (engine E3 records the "
+                   "degree of the other side of every comparison that involves a bare tolerance symbol)", floor=floor)
+    dg, _ = run_engine(idx, modules, face_arrays)
+    agg = {}
+    for (fk, name), uses in dg.tol_uses.items():
+        if not any(fk.startswith(m) for m in modules):
+            continue
+        scope = fk.rsplit(".", 1)[0] if name.startswith("self.") else fk
+        agg.setdefault((scope, name), []).extend((d, fk, n) for d, n in uses)
+    for (scope, name), uses in sorted(agg.items()):
+        ds = sorted({d for d, _, _ in uses})
+        key = "%s|%s" % (scope, name)
+        if len(ds) > 1 and key in TOL_EXCEPTIONS:
+            rep.note("R-TOLUNIT exception %s: %s" % (key, TOL_EXCEPTIONS[key]))
+            continue
+        d0, fk0, n0 = uses[0]
+        mod = idx.modules.get(scope.split("::")[0])
+        where = "%s:%d" % (mod.relpath if mod else scope, n0.lineno)
+        rep.check(len(ds) == 1, rule, key, where,
+                  "the tolerance `%s` is compared with quantities of different length degrees %s (%s): one of the tests applies a length tolerance to a squared length / area / "
+                  "volume (or vice versa), so it triggers for small but valid shapes and never for large ones"
+                  % (name, [str(d) for d in ds], "; ".join("`%s` [degree %s]" % (u(n)[:60], d) for d, _, n in uses[:4])), "degree %s (%d comparisons)" % (ds[0], len(uses)))
